@@ -315,7 +315,18 @@ def run(ctx):
         # every country's data rows (species mix, option rows per breeding strategy) at least once under each of the two
         # non-default breeding strategies: data-dependent failures live in single rows of the species / country tables
         sentinels += [c for c in cells if c["preset"] in ("ms_example_scenario", "var_meat_strategy=baseline_breeding")]
-        cells = extra + sentinels + pick + [ctx.rng.choice(wcells)]
+        # countries whose runs are numerically tight or take rarely used paths (MNG: meat re-timing between rounds; NZL: the
+        # special-cased constant; ISR: tight under the manuscript presets) under every shipped YAML preset and manuscript preset
+        tight = {"MNG", "NZL", "ISR"}
+        sentinels += [c for c in cells if c["iso3"] in tight and not c["preset"].startswith(("var_", "msv_", "blv_"))]
+        seen = set()
+        uniq = []
+        for c in extra + sentinels + pick:
+            if (c["iso3"], c["preset"]) not in seen:
+                seen.add((c["iso3"], c["preset"]))
+                uniq.append(c)
+        # every world preset (the world aggregate takes its own path through the dispatcher and the crop model)
+        cells = uniq + wcells
     else:
         cells = cells + wcells
     ms = dict(presets.fig1()["ms_no_adaptations"])
